@@ -6,23 +6,26 @@
    clean-up obligations.
 
    S = [app, proc, files, cleanups, cwd, res, tool, failed]
-     app      : the wrapper's life-cycle state
+     app      : the wrapper's life-cycle state; "NONE" = there is no wrapper object (yet): the
+                history starts with the action "construct", which may fail
      proc     : "none" | "running" | "blocked" | "exited"   (the child process / remote job)
                 "running": still working (it hangs until the environment lets it go on);
                 "blocked": it has written more than the OS pipes hold and waits for a reader -
                            it ends as soon as, and only when, somebody reads its output
-     files    : "present" | "absent"               (temporary files; created by the constructor)
+     files    : "present" | "absent"               (temporary files; created by the constructor:
+                                                    absent while there is no wrapper object)
      cleanups : number of clean-up runs so far
      cwd      : "home" | "moved"                   (working directory of the calling process)
      res      : "none" | "ready"                   (results evaluated)
      tool     : behaviour of the external program, constant for a behaviour; a record of
                 independent dimensions (see Tool below)
-     failed   : TRUE after a failed launch (the run has ended; nothing else is specified)
+     failed   : TRUE after a failed launch (the run has ended; nothing else is specified) and
+                after a refused construction (there is no object; nothing may be left behind)
    Step(S, c) = S' extended with oc (outcome) and out (returned value).
    oc in {"ok", "AppStateError", "TimeoutError", "Rejected"} *)
 EXTENDS Integers, Sequences, FiniteSets, TLC
 
-AppStates == {"CREATED", "RUNNING", "FINISHED", "JOINED", "CANCELLED"}
+AppStates == {"NONE", "CREATED", "RUNNING", "FINISHED", "JOINED", "CANCELLED"}
 
 (* ------------------------------------------------- behaviours of the external program
    launch : "ok" | "missing" (the binary cannot be found, OSError) | "badopt" (an option setter
@@ -33,19 +36,41 @@ AppStates == {"CREATED", "RUNNING", "FINISHED", "JOINED", "CANCELLED"}
    ending : how the program ends after it has written that output: exit code 0, a failing exit
             code, or death by a signal (killed from outside, crash in its own tear-down)
    vol    : what it writes to its pipes besides the result: a few bytes, or more than an OS
-            pipe holds on STDOUT, on STDERR, on both *)
+            pipe holds on STDOUT, on STDERR, on both
+   stop   : how the program reacts to the signals a program can catch (SIGTERM, SIGINT, SIGHUP)
+            while it works or waits: "default" (it dies) | "resists" (it ignores / handles
+            them, as wrapper scripts and programs with their own signal handling do); nothing
+            resists SIGKILL
+   build  : what happens when the wrapper object is constructed: "ok" | the binary is asked for
+            its version and is missing ("no_binary") / reports a version the wrapper class does
+            not accept ("wrong_version") / reports no version at all ("no_version") | the
+            caller's arguments are refused ("bad_input": one sequence, mixed alphabets, an
+            asymmetric matrix).  Everything but "ok" makes the construction fail. *)
 Launches == {"ok", "missing", "badopt"}
 Orders == {"identity", "reversed", "rotated"}
 Outputs == {"complete", "truncated", "garbage", "none"}
 Endings == {"exit0", "exit3", "SIGKILL", "SIGTERM", "SIGSEGV"}
 Volumes == {"small", "bigout", "bigerr", "bigboth"}
-Tool(la, ord, ou, en, vo) == [launch |-> la, order |-> ord, output |-> ou, ending |-> en, vol |-> vo]
+StopKinds == {"default", "resists"}
+Builds == {"ok", "no_binary", "wrong_version", "no_version", "bad_input"}
+Tool(la, ord, ou, en, vo) == [launch |-> la, order |-> ord, output |-> ou, ending |-> en, vol |-> vo,
+                              stop |-> "default", build |-> "ok"]
+Resisting(t) == [t EXCEPT !.stop = "resists"]
 DefaultTool == Tool("ok", "identity", "complete", "exit0", "small")
+\* the signals a wrapper may use to end the program, and which of them end which program
+Signals == {"SIGTERM", "SIGINT", "SIGKILL"}
+StoppedBy(t, sig) == sig = "SIGKILL" \/ t.stop = "default"
+\* the specified design: a run that is ended from outside ends the program with the one
+\* signal that ends every program (InvRunEndsClean holds for every behaviour only because of it)
+CleanupSignal == "SIGKILL"
 \* the order of the rows only means something for a complete output
-AllTools ==
+LaunchedTools ==
   {Tool("ok", o, "complete", e, v) : o \in Orders, e \in Endings, v \in Volumes}
   \cup {Tool("ok", "identity", u, e, v) : u \in Outputs \ {"complete"}, e \in Endings, v \in Volumes}
+AllTools ==
+  LaunchedTools \cup {Resisting(t) : t \in LaunchedTools}
   \cup {Tool(la, "identity", "complete", "exit0", "small") : la \in {"missing", "badopt"}}
+  \cup {[DefaultTool EXCEPT !.build = b] : b \in Builds \ {"ok"}}
 \* one dimension varied at a time around the default + the combinations that interact
 \* (death by signal after complete / partial output, failure with a long error message,
 \* big volume together with a signal)
@@ -65,18 +90,33 @@ CoreTools ==
    Tool("ok", "identity", "none", "exit3", "bigerr"),
    Tool("ok", "identity", "complete", "SIGKILL", "bigout"),
    Tool("missing", "identity", "complete", "exit0", "small"),
-   Tool("badopt", "identity", "complete", "exit0", "small")}
+   Tool("badopt", "identity", "complete", "exit0", "small"),
+   \* a program that does not die on a polite signal: while it works, while it waits for a
+   \* reader of its pipes, and one that would end badly anyway
+   Resisting(DefaultTool),
+   Resisting(Tool("ok", "reversed", "complete", "exit0", "bigboth")),
+   Resisting(Tool("ok", "identity", "none", "exit3", "bigerr")),
+   \* every way a construction can fail
+   [DefaultTool EXCEPT !.build = "no_binary"],
+   [DefaultTool EXCEPT !.build = "wrong_version"],
+   [DefaultTool EXCEPT !.build = "no_version"],
+   [DefaultTool EXCEPT !.build = "bad_input"]}
 
 LaunchFails(t) == t.launch # "ok"
+BuildFails(t) == t.build # "ok"
 \* a run is successful exactly when the program delivered a complete alignment AND ended
 \* with exit code 0
 Succeeds(t) == t.launch = "ok" /\ t.output = "complete" /\ t.ending = "exit0"
 BigVolume(t) == t.vol # "small"
 ExitText(t) == CASE t.ending = "exit0" -> "0" [] t.ending = "exit3" -> "3" [] OTHER -> "signal"
 
-Calls == {"start", "join", "join_t", "join_T", "cancel", "state", "setter", "get_alignment",
-          "get_order", "get_tree", "get_exit_code", "get_stdout", "get_command",
-          "get_process", "proc_exits", "proc_writes", "refresh"}
+Calls == {"construct", "start", "join", "join_t", "join_T", "cancel", "state", "setter",
+          "get_alignment", "get_order", "get_tree", "get_dist", "get_exit_code", "get_stdout",
+          "get_command", "get_process", "proc_exits", "proc_writes", "refresh"}
+\* "construct" : the constructor of the wrapper class (it may ask the binary for its version and
+\*               it creates the temporary files); the only action while there is no object
+\* "get_dist"  : a result getter that only some wrapper classes have (the distance matrix the
+\*               program wrote, ClustalOmegaApp after full_matrix_calculation())
 \* "join"   : join()                - waits as long as it takes
 \* "join_t" : join(timeout = short) - expires unless the program has already exited
 \* "join_T" : join(timeout = long)  - long enough for a program that only waits for a reader
@@ -91,23 +131,27 @@ EnvSteps == {"proc_exits", "proc_writes"}
 
 (* the documented life cycle: in which states a call is accepted *)
 Allowed(c) ==
-  CASE c = "start" -> {"CREATED"}
+  CASE c = "construct" -> {"NONE"}
+    [] c = "start" -> {"CREATED"}
     [] c \in {"join", "join_t", "join_T", "cancel"} -> {"RUNNING", "FINISHED"}
     [] c = "setter" -> {"CREATED"}
-    [] c \in {"get_alignment", "get_order", "get_tree"} -> {"JOINED"}
+    [] c \in {"get_alignment", "get_order", "get_tree", "get_dist"} -> {"JOINED"}
     [] c \in {"get_exit_code", "get_stdout"} -> {"FINISHED", "JOINED"}
     [] c = "get_command" -> {"RUNNING", "FINISHED", "JOINED", "CANCELLED"}
     [] c = "get_process" -> {"RUNNING", "FINISHED"}
-    [] c \in {"state", "proc_exits", "proc_writes", "refresh"} -> AppStates
+    [] c \in {"state", "proc_exits", "proc_writes", "refresh"} -> AppStates \ {"NONE"}
 
 With(S, oc, out) ==
   [app |-> S.app, proc |-> S.proc, files |-> S.files, cleanups |-> S.cleanups, cwd |-> S.cwd,
    res |-> S.res, tool |-> S.tool, failed |-> S.failed, oc |-> oc, out |-> out]
 
-\* the end of a run: clean-up runs (once), temp files go away, the child is gone
+\* the end of a run: clean-up runs (once), temp files go away, the child is gone (a program
+\* that is still alive is ended with CleanupSignal)
 EndRun(S, newApp, newRes) ==
   [S EXCEPT !.app = newApp, !.res = newRes, !.cleanups = S.cleanups + 1, !.files = "absent",
-            !.proc = IF S.proc \in {"running", "blocked"} THEN "exited" ELSE S.proc, !.cwd = "home"]
+            !.proc = IF S.proc \in {"running", "blocked"} /\ StoppedBy(S.tool, CleanupSignal)
+                       THEN "exited" ELSE S.proc,
+            !.cwd = "home"]
 
 \* what the external program's output means, mapped back to input order
 OrderOf(tool) == tool.order
@@ -129,7 +173,12 @@ Step(S, c) ==
   ELSE IF c = "proc_writes" THEN With([S EXCEPT !.proc = "blocked"], "ok", "")
   ELSE IF c = "refresh" THEN With([S EXCEPT !.app = "FINISHED"], "ok", "")
   ELSE IF S.app \notin Allowed(c) THEN With(S, "AppStateError", "")
-  ELSE CASE c = "start" ->
+  ELSE CASE c = "construct" ->
+              \* a refused construction leaves nothing behind: no object, no file, no process
+              IF BuildFails(S.tool)
+                THEN With([S EXCEPT !.failed = TRUE], "Rejected", "")
+                ELSE With([S EXCEPT !.app = "CREATED", !.files = "present"], "ok", "")
+         [] c = "start" ->
               IF LaunchFails(S.tool)
                 THEN With([EndRun(S, "CANCELLED", "none") EXCEPT !.failed = TRUE], "Rejected", "")
                 ELSE With([S EXCEPT !.app = "RUNNING", !.proc = "running"], "ok", "")
@@ -146,6 +195,7 @@ Step(S, c) ==
          [] c = "get_alignment" -> With(S, "ok", "rows_are_inputs_in_input_order")
          [] c = "get_order" -> With(S, "ok", OrderOf(S.tool))
          [] c = "get_tree" -> With(S, "ok", "tree_with_every_sequence_once")
+         [] c = "get_dist" -> With(S, "ok", "matrix_the_program_wrote")
          [] c = "get_exit_code" -> With(S, "ok", ExitText(S.tool))
          [] c = "get_stdout" -> With(S, "ok", "text")
          [] c = "get_command" -> With(S, "ok", "text")
@@ -153,6 +203,7 @@ Step(S, c) ==
 
 Enabled(S, c) ==
   /\ ~S.failed                                   \* after a failed launch nothing is specified
+  /\ ((c = "construct") = (S.app = "NONE"))      \* no object: nothing to call but the constructor
   /\ (c = "proc_exits" => (S.proc = "running" /\ ~BigVolume(S.tool)))
   /\ (c = "proc_writes" => (S.proc = "running" /\ BigVolume(S.tool)))
   /\ (c = "refresh" => (S.app = "RUNNING" /\ S.proc = "exited"))
@@ -168,27 +219,33 @@ Variants(S, c) ==
   IN rs \cup {With(Refreshed(Core(r)), r.oc, r.out) : r \in rs}
 
 InitState(tool) ==
-  [app |-> "CREATED", proc |-> "none", files |-> "present", cleanups |-> 0, cwd |-> "home",
+  [app |-> "NONE", proc |-> "none", files |-> "absent", cleanups |-> 0, cwd |-> "home",
    res |-> "none", tool |-> tool, failed |-> FALSE]
+\* the state after a successful construction
+CreatedState(tool) == Core(Step(InitState([tool EXCEPT !.build = "ok"]), "construct"))
 
-\* the plain history start() - the program does its work - join(), for a program that can be
-\* launched: <<result of start, result of join>>
+\* the plain history construct - start() - the program does its work - join(), for a program
+\* that can be constructed and launched: <<result of start, result of join>>
 PlainRun(tool) ==
-  LET s1 == Step(InitState(tool), "start")
+  LET s1 == Step(CreatedState(tool), "start")
       s2 == Step(Core(s1), IF BigVolume(tool) THEN "proc_writes" ELSE "proc_exits")
   IN <<s1, Step(Core(s2), "join")>>
 
 (* ------------------------------------------------------------------ properties of a state *)
-RunEnded(S) == S.app \in {"JOINED", "CANCELLED"} \/ S.failed
+RunEnded(S) == S.app \in {"JOINED", "CANCELLED"} \/ (S.failed /\ S.app # "NONE")
+\* while there is no wrapper object (before the construction, after a refused one) nothing
+\* is owned: no temporary file, no process, no clean-up to run
+NoObjectNoResources(S) ==
+  S.app = "NONE" => (S.files = "absent" /\ S.proc = "none" /\ S.cleanups = 0 /\ S.cwd = "home")
 RunEndsClean(S) ==
   RunEnded(S) => (S.cleanups = 1 /\ S.files = "absent" /\ S.proc \notin {"running", "blocked"}
                   /\ S.cwd = "home")
-NoCleanupBeforeEnd(S) == ~RunEnded(S) => (S.cleanups = 0 /\ S.files = "present")
+NoCleanupBeforeEnd(S) == ~RunEnded(S) => (S.cleanups = 0 /\ ((S.files = "present") = (S.app # "NONE")))
 ResultsOnlyAfterJoin(S) == (S.res = "ready") = (S.app = "JOINED")
 \* results are handed out for successful runs only
 ResultsOnlyOfSuccess(S) == (S.res = "ready") => Succeeds(S.tool)
 ProcConsistent(S) ==
-  /\ (S.app = "CREATED" => S.proc = "none")
+  /\ (S.app \in {"NONE", "CREATED"} => S.proc = "none")
   /\ (S.app = "RUNNING" => S.proc \in {"running", "blocked", "exited"})
   /\ (S.app \in {"FINISHED", "JOINED"} => S.proc = "exited")
   /\ (S.proc = "blocked" => BigVolume(S.tool))
